@@ -75,6 +75,11 @@ def make_seq(ch, params):
         cell = ch.pick(cells)
         addr = cell + (ch.below(8 // nb) * nb if kind not in ('load', 'store') else ch.below(8))
         base = addr     # the static offset is added by the instruction
+        if ch.below(6) == 0:
+            # the access ends exactly at the end of the (one page) memory: effective address 65536 - width
+            base = 65536 - nb - off
+            addr = base
+            classes['access_ends_at_memory_end'] = classes.get('access_ends_at_memory_end', 0) + 1
         bits = 64 if t == I64 else 32
         v = pools.draw_value(ch, t)
         if kind in ('aload', 'load'):
